@@ -438,6 +438,7 @@ class Verifier:
         self.cands = {}                 # cut key -> {name: builder}
         self.cut_keys = set()
         self.result = JobResult(job)
+        self.sticky = {}     # observations that hold whatever the rest of the run decides (flavour tests)
         self.final = False
         self.changed = False
 
@@ -464,6 +465,8 @@ class Verifier:
             res.undecided = f"unsupported construct: {u}"
         except Budget as b:
             res.undecided = f"align/budget: {b}"
+        for name, detail in self.sticky.items():
+            res.record(name, "effect", False, detail=detail)
         res.wall_s = round(time.time() - t0, 3)
         return res
 
@@ -486,6 +489,10 @@ class Verifier:
                 self.changed = True
                 continue
             finally:
+                if self.final:
+                    for mod, line, kind in ctx.awaits:
+                        self.result.record(f"await-operand/{mod}:L{line}/{kind}", "await-effect", not kind.startswith("other"),
+                                           detail=f"{mod}:{line} awaits {kind}")
                 self.result.solver_s += ctx.solver_s
                 self.result.queries += ctx.queries
                 self.result.repolls += getattr(ctx, "repolls", 0)
@@ -534,6 +541,14 @@ class Verifier:
         ref_i = Interp(ctx, "ref", opts)
         self.impl_i, self.ref_i = impl_i, ref_i
         impl_i.env = ref_i.env = env
+
+        class _FT(list):
+            def append(s, item, self=self):
+                mod, site, what = item
+                self.sticky[f"{self.job.name}/flavour-test/{mod}@{self.fmt_site(site)}"] = (
+                    f"{mod} inspects the sync/async flavour of a user argument outside _core: {what} "
+                    "(sync and async arguments take different code paths)")
+        impl_i.flavour_tests = _FT()
         a = job.mk(ctx, env)
         impl_fn = self.resolve(self.impl_prog, job.impl)
         ref_fn = self.resolve(self.ref_prog, job.ref)
@@ -703,6 +718,11 @@ class Verifier:
             d = f"call {fn.name}({','.join(describe(x) for x in ev.payload[1])})"
             if c == "ret":
                 kind = job.opts.get("ret_kinds", {}).get(fn.name)
+                if kind == "awaitable":
+                    v = Opaque(ctx.fresh(Val, f"{fn.name}_result"))
+                    aw = EnvAwaitable(f"{fn.name}()#{ctx.evseq}", payload=v)
+                    self.trace.append((d, f"ret awaitable of {v.t}"))
+                    return ("ret", aw)
                 if kind == "envgen":
                     g = EnvGen(f"{fn.name}{len(env.gens)}")
                     env.gens[g.name] = g
@@ -1048,6 +1068,10 @@ class Verifier:
             self.prove(ctx, f"{job.name}/neutral-call/{fnname}@{self.fmt_site(site)}", "effect", False,
                        detail=f"user callable {fnname} is called without awaitify (async callables would not be awaited)")
         ii.direct_calls.clear()
+        if self.final:
+            for fnname, site in ii.neutral_calls:
+                self.result.record(f"{job.name}/neutral-call/{fnname}@{self.fmt_site(site)}", "effect", True)
+        ii.neutral_calls.clear()
         for fnname, site in ii.await_gaps:
             self.prove(ctx, f"{job.name}/await-adjacent/{fnname}@{self.fmt_site(site)}", "effect", False,
                        detail=f"result of user callable {fnname} is awaited only after other events")
